@@ -19,88 +19,80 @@ Proof.
 Qed.
 
 (* ---------------------------------------------------------------- the class named in the Err *)
-Lemma try_err_class_l : forall chk k, k <> RMod0 ->
+Lemma try_err_class_l : forall chk k,
   try_like chk (inr k) = encode (mkC (s2l "Err") (PStr (class_name k ++ s2l ": " ++ err_msg k))).
-Proof. intros chk k Hk. destruct k; try congruence; destruct chk; vm_compute; reflexivity. Qed.
+Proof. intros chk k. destruct k; destruct chk; vm_compute; reflexivity. Qed.
 
-(* a % 0: the text "Modulo by zero" matches none of the patterns *)
-Lemma try_err_class_modulo_refuted_l :
-  decode (try_like false (ceval 7 0 (CMod CA CB))) = mkC (s2l "Err") (PStr (s2l "Custom: Modulo by zero")) /\
-  decode (try_like true (ceval 7 0 (CMod CA CB))) = mkC (s2l "Err") (PStr (s2l "CheckedError: Modulo by zero")) /\
-  spec_try (ceval 7 0 (CMod CA CB)) = mkC (s2l "Err") (PStr (s2l "DivisionByZeroError: Modulo by zero")).
-Proof. vm_compute. repeat split. Qed.
+(* a % 0 (former witness #25, repaired by /repo 4ea336a): classed as division by zero under both keywords *)
+Lemma try_modulo_example_l :
+  decode (try_like false (ceval 7 0 (CMod CA CB))) = mkC (s2l "Err") (PStr (s2l "DivisionByZeroError: Modulo by zero")) /\
+  decode (try_like true (ceval 7 0 (CMod CA CB))) = spec_try (ceval 7 0 (CMod CA CB)).
+Proof. vm_compute. split; reflexivity. Qed.
 
 (* classification of arbitrary texts: the order of the if-chain *)
 Lemma classify_general : forall msg chk,
   let l := lower msg in
-  (contains (s2l "division by zero") l = true -> classify msg chk = s2l "DivisionByZeroError") /\
-  (contains (s2l "division by zero") l = false -> (contains (s2l "divide") l && contains (s2l "zero") l) = false ->
-   contains (s2l "null pointer") l = true -> classify msg chk = s2l "NullPointerError") /\
-  (contains (s2l "division by zero") l = false -> (contains (s2l "divide") l && contains (s2l "zero") l) = false ->
-   contains (s2l "null pointer") l = false -> contains (s2l "nullptr") l = false ->
+  let div := contains (s2l "division by zero") l || contains (s2l "modulo by zero") l ||
+             (contains (s2l "divide") l && contains (s2l "zero") l) in
+  (div = true -> classify msg chk = s2l "DivisionByZeroError") /\
+  (div = false -> contains (s2l "null pointer") l = true -> classify msg chk = s2l "NullPointerError") /\
+  (div = false -> contains (s2l "null pointer") l = false -> contains (s2l "nullptr") l = false ->
    contains (s2l "bounds") l = true -> classify msg chk = s2l "IndexOutOfBoundsError").
 Proof.
-  intros msg chk l. unfold classify. fold l. repeat split.
+  intros msg chk l div. unfold classify. fold l. fold div. repeat split.
   - intro H. rewrite H. reflexivity.
-  - intros H1 H2 H3. rewrite H1, H2, H3. reflexivity.
-  - intros H1 H2 H3 H4 H5. rewrite H1, H2, H3, H4, H5. simpl. rewrite orb_true_r. reflexivity.
+  - intros H1 H3. rewrite H1, H3. reflexivity.
+  - intros H1 H3 H4 H5. rewrite H1, H3, H4, H5. simpl. rewrite orb_true_r. reflexivity.
 Qed.
 
 (* the three texts the evaluator raises fall in the three demanded classes, under try and under checked *)
 Lemma classify_core_messages : forall chk,
   classify (err_msg RDiv0) chk = s2l "DivisionByZeroError" /\
+  classify (err_msg RMod0) chk = s2l "DivisionByZeroError" /\
   classify (err_msg RBounds) chk = s2l "IndexOutOfBoundsError" /\
   classify (err_msg RNull) chk = s2l "NullPointerError".
 Proof. intro chk. destruct chk; vm_compute; repeat split. Qed.
 
-(* ---------------------------------------------------------------- `return try e;` meets the property *)
-Lemma try_good_payload : forall a b e, (match ceval a b e with inl z => in_int32 z | inr _ => true end) = true ->
-  good_for_match (c_payload (spec_try (ceval a b e))) = true.
-Proof. intros a b e H. destruct (ceval a b e) as [z|k]; simpl in *; [exact H|]. destruct k; reflexivity. Qed.
-
+(* ---------------------------------------------------------------- return and declaration contexts meet the property *)
 Lemma try_refines_l : forall p, safe_t p = true -> m_run_t p = s_run_t p.
 Proof.
   intros [chk ctx a b e] Hs. unfold safe_t in Hs. simpl in Hs.
-  apply andb_true_iff in Hs. destruct Hs as [Hc Hv]. destruct ctx; try discriminate.
   unfold m_run_t, s_run_t, match_events. simpl.
   assert (Hsv : try_like chk (ceval a b e) = encode (spec_try (ceval a b e))).
-  { destruct (ceval a b e) as [z|k]; [reflexivity|]. destruct k; try discriminate; apply try_err_class_l; discriminate. }
-  rewrite Hsv. rewrite variant_encode. rewrite match_refines_l; [reflexivity|].
-  apply try_good_payload. destruct (ceval a b e) as [z|k]; [exact Hv|reflexivity].
+  { destruct (ceval a b e) as [z|k]; [reflexivity|]. apply try_err_class_l. }
+  rewrite Hsv. rewrite variant_encode.
+  assert (Hg : good_for_match (c_payload (spec_try (ceval a b e))) = true).
+  { destruct (ceval a b e) as [z|k]; [reflexivity|]. destruct k; reflexivity. }
+  rewrite (match_refines_l _ _ Hg).
+  destruct ctx; try discriminate; reflexivity.
 Qed.
 
-(* ---------------------------------------------------------------- everywhere else the function ends *)
-Lemma arm_outcome_no_g2 : forall v a, ~ In EG2 (fst (arm_outcome v a)).
-Proof. intros v a. destruct a; simpl; intuition discriminate. Qed.
-
-Lemma try_continues_refuted_l : forall p, t_ctx p <> TRet ->
+(* ---------------------------------------------------------------- an assignment `r = try e;` still ends the function *)
+Lemma try_continues_refuted_l : forall p, (t_ctx p = TAsg \/ t_ctx p = TAsgMain) ->
   ~ In EG2 (r_events (m_run_t p)) /\ In EG2 (r_events (s_run_t p)) /\
-  (t_ctx p = TMain -> m_run_t p = mkR [EG1] XOk) /\
-  (t_ctx p = TVoid -> m_run_t p = mkR [EG1; EAfter] XOk).
+  (t_ctx p = TAsgMain -> m_run_t p = mkR [EG1] XOk) /\
+  (t_ctx p = TAsg -> m_run_t p = mkR [EG1; EAfter] XOk).
 Proof.
   intros [chk ctx a b e] Hc. simpl in Hc. unfold m_run_t, s_run_t. simpl.
   assert (Hspec : forall o : list ev * exitc,
             In EG2 (r_events (match snd o with XOk => mkR ([EG1; EG2] ++ fst o ++ [EAfter]) XOk | x => mkR [EG1; EG2] x end))).
   { intros [evs x]. destruct x; simpl; auto. }
-  destruct ctx; try congruence.
-  - (* TDecl *)
-    split; [|split; [apply Hspec|split; discriminate]].
-    unfold match_events.
-    pose proof (arm_outcome_no_g2 (s_variant (try_like chk (ceval a b e))) (mech_match (try_like chk (ceval a b e)) t_arms)) as Hno.
-    destruct (arm_outcome (s_variant (try_like chk (ceval a b e))) (mech_match (try_like chk (ceval a b e)) t_arms)) as [evs x].
-    simpl in *. destruct x; simpl; intros [H|H]; try discriminate; try contradiction.
-    apply in_app_or in H. destruct H as [H|[H|[]]]; [contradiction|discriminate].
-  - (* TVoid *)
-    split; [|split; [apply Hspec|split; [discriminate|reflexivity]]].
+  destruct Hc as [->| ->].
+  - split; [|split; [apply Hspec|split; [discriminate|reflexivity]]].
     simpl. intros [H|[H|[]]]; discriminate.
-  - (* TMain *)
-    split; [|split; [apply Hspec|split; [reflexivity|discriminate]]].
+  - split; [|split; [apply Hspec|split; [reflexivity|discriminate]]].
     simpl. intros [H|[]]; discriminate.
 Qed.
 
-(* concrete instance: main { g1; R r = try (1 / 0); g2; match r ... } prints g1 and stops with exit 0 *)
-Lemma try_main_witness :
+(* concrete instances: the former witness (declaration in main, repaired by /repo 982c54e) and the assignment form *)
+Lemma try_main_example :
   let p := mkT false TMain 1 0 (CDiv CA CB) in
+  m_run_t p = mkR [EG1; EG2; EArm 1 (VStr (s2l "DivisionByZeroError: Division by zero")); EAfter] XOk /\
+  s_run_t p = m_run_t p.
+Proof. vm_compute. split; reflexivity. Qed.
+
+Lemma try_assign_witness :
+  let p := mkT false TAsgMain 1 0 (CDiv CA CB) in
   m_run_t p = mkR [EG1] XOk /\
   s_run_t p = mkR [EG1; EG2; EArm 1 (VStr (s2l "DivisionByZeroError: Division by zero")); EAfter] XOk.
 Proof. vm_compute. split; reflexivity. Qed.
